@@ -15,6 +15,7 @@
                      only for degrees configured in none of the three tables; presence of a numeric target is
                      tested with `is not None` everywhere (0 is a legal target).
  Rm memo          : every memoisation construct in the functions behind this property is keyed by everything it reads.
+ Rp presence      : optional numeric fields are tested with `is None` / membership, never by truthiness (0 is a value).
 """
 import ast
 
@@ -348,4 +349,9 @@ from ..memo import rule_for as _memo_rule
 
 RULES_MEMO = ('Rm.memo', _memo_rule('C06', 'the equalisation computed for another spectrum or target would be applied'))
 
-RULES = [('R6.stateless', r6_stateless), ('R1.formula', r1_formula), ('R2.policy', r2_policy), ('R4.one-policy', r4_one_policy), ('R5.design', r5_design), RULES_MEMO]
+
+from ..presence import rule_for as _presence_rule
+
+RULES_PRESENCE = ('Rp.presence', _presence_rule('C06', 'a ROADM target of exactly 0 dBm would be ignored and another target applied'))
+
+RULES = [('R6.stateless', r6_stateless), ('R1.formula', r1_formula), ('R2.policy', r2_policy), ('R4.one-policy', r4_one_policy), ('R5.design', r5_design), RULES_MEMO, RULES_PRESENCE]
